@@ -240,6 +240,122 @@ fn rel_err_q(e: &RelationalError) -> String {
     }
 }
 
+/// Raw plain keys (class 0) come in FAMILIES: key number `100 * family + index` is the storage key
+/// `<FAMS[family]><index>` (family 0 = the `plain:` keys of every earlier stream).  The families are
+/// chosen against the layout of the metadata slab — 16 shards, a key lives in shard
+/// `first byte % 16` (`MetadataSlab::shard_index`) — so that every shard an engine writes to also
+/// receives keys with ANOTHER first byte, before and after it in key order:
+///   shard 15: `_meta:` / `_idx:` / `_btree:` / `_graph_idx:` / `_blob:` (0x5F)  with `order:` (0x6F, after) and `/path:` (0x2F, before)
+///   shard  5: `edge:` / `emb:` (0x65)                                            with `user:` (0x75, after)
+///   shard 14: `node:` (0x6E)                                                     with `Note:` (0x4E, before) and `~tmp:` (0x7E, after)
+///   shard  0: `plain:` (0x70) with `Product:` (0x50);  shard 4: `table:` (0x74) with `doc:` (0x64);  shard 9: `item:` alone
+/// (the model's `Shard.plainFamilies` lists the same first bytes)
+const FAMS: [&str; 10] = ["plain:", "user:", "order:", "Note:", "~tmp:", "Product:", "table:", "doc:", "item:", "/path:"];
+/// families grouped by metadata shard (raw families only; the engines' own families are named above)
+const FAM_GROUPS: [&[u64]; 6] = [&[0, 5], &[1], &[2, 9], &[3, 4], &[6, 7], &[8]];
+
+fn plain_key(k: u64) -> String {
+    let f = (k / 100) as usize;
+    if (1..FAMS.len()).contains(&f) {
+        format!("{}{}", FAMS[f], k % 100)
+    } else {
+        format!("plain:{k}")
+    }
+}
+
+/// the key number of a raw plain key of any family
+fn plain_code(key: &str) -> Option<u64> {
+    if let Some(k) = key.strip_prefix("plain:").and_then(|s| s.parse::<u64>().ok()) {
+        return Some(k);
+    }
+    for (f, p) in FAMS.iter().enumerate().skip(1) {
+        if let Some(j) = key.strip_prefix(p).and_then(|s| s.parse::<u64>().ok()) {
+            if j < 100 {
+                return Some(f as u64 * 100 + j);
+            }
+        }
+    }
+    None
+}
+
+/// EVERY key `scan("")` lists — the engines' internal `_` keys, the blob records and chunks of the
+/// checkpoints themselves, `node:` / `edge:` / `emb:`, every raw family — with a digest of its
+/// fields (field names sorted; FNV-1a over `name=Debug(value)`).  Content-addressed blob chunks
+/// (`_blob:chunk:<hash>`) and `emb:` keys (whose slab-dimension `_embedding` is judged bit for bit by
+/// `raw_strict` / the embedding image) carry the digest 0: for them the key itself is what counts.
+fn full_keys(st: &TensorStore) -> BTreeMap<String, u64> {
+    let mut out = BTreeMap::new();
+    for key in st.scan("") {
+        let d = if key.starts_with("_blob:chunk:") || key.starts_with("emb:") {
+            0
+        } else {
+            match st.get(&key) {
+                Ok(t) => {
+                    let mut fs: Vec<String> = t.fields_iter().map(|(n, v)| format!("{n}={v:?}")).collect();
+                    fs.sort();
+                    let mut h: u64 = 0xcbf29ce484222325;
+                    for b in fs.join(";").bytes() {
+                        h = (h ^ u64::from(b)).wrapping_mul(0x100000001b3);
+                    }
+                    h | 1
+                }
+                Err(_) => 2, // listed by scan, not readable by get
+            }
+        };
+        out.insert(key, d);
+    }
+    out
+}
+
+/// property oracle on the FULL key set: `then` = every key of the store when the checkpoint was
+/// taken, `now` = every key after rolling back to it.  (class, what) per kind of difference.
+fn diff_full_keys(then: &BTreeMap<String, u64>, now: &BTreeMap<String, u64>) -> Vec<(String, String)> {
+    let show = |v: &Vec<&String>| {
+        let mut s = v.iter().take(12).map(|k| k.as_str()).collect::<Vec<_>>().join(", ");
+        if v.len() > 12 {
+            s.push_str(&format!(", … ({} in all)", v.len()));
+        }
+        s
+    };
+    let mut out = vec![];
+    let lost: Vec<&String> = then.keys().filter(|k| !now.contains_key(*k)).collect();
+    if !lost.is_empty() {
+        out.push((
+            KEYS_LOST_CLASS.to_string(),
+            format!("{} of the {} storage keys that existed when the checkpoint was taken are missing after the rollback: {}", lost.len(), then.len(), show(&lost)),
+        ));
+    }
+    let extra: Vec<&String> = now.keys().filter(|k| !then.contains_key(*k)).collect();
+    if !extra.is_empty() {
+        out.push((
+            KEYS_LEFT_CLASS.to_string(),
+            format!("{} storage keys that did not exist when the checkpoint was taken are there after the rollback: {}", extra.len(), show(&extra)),
+        ));
+    }
+    let changed: Vec<&String> = then.iter().filter(|(k, d)| now.get(*k).is_some_and(|e| e != *d)).map(|p| p.0).collect();
+    if !changed.is_empty() {
+        out.push((
+            VALUES_CHANGED_CLASS.to_string(),
+            format!("{} storage keys hold other fields after the rollback than when the checkpoint was taken: {}", changed.len(), show(&changed)),
+        ));
+    }
+    out
+}
+
+/// classes of the full-key-set oracle (every key of the store, internal ones included)
+const KEYS_LOST_CLASS: &str = "tensor_store.restore_from_bytes/keys_lost_after_restore";
+const KEYS_LEFT_CLASS: &str = "tensor_store.restore_from_bytes/keys_left_after_restore";
+const VALUES_CHANGED_CLASS: &str = "tensor_store.restore_from_bytes/values_changed_after_restore";
+/// a checkpoint that was listed when the rollback target was taken (so its blob is IN the target's
+/// snapshot) and was still listed before the rollback is gone after it — not the known
+/// `checkpoints_lost_after_rollback`, which is about the target itself and everything made after it
+const OLDER_LOST_CLASS: &str = "query_router.rollback/older_checkpoint_lost_after_rollback";
+const NOT_LOADABLE_AFTER_ROLLBACK_CLASS: &str = "query_router.rollback/listed_checkpoint_not_loadable_after_rollback";
+/// a table that was listed when the checkpoint was taken is not even LISTED after the rollback (its
+/// `_meta:table:` key did not come back) — not the known `relational_tables_lost`, where the table
+/// is listed again and its rows (relational slab) are gone
+const TABLE_UNLISTED_CLASS: &str = "query_router.rollback/table_unlisted_after_rollback";
+
 static BLOB_CHUNK: std::sync::atomic::AtomicUsize = std::sync::atomic::AtomicUsize::new(0);
 
 /// the real system under test
@@ -285,7 +401,7 @@ impl Sys {
         match cls {
             1 => format!("_cache:c{k}"),
             2 => format!("emb:e{k}"),
-            _ => format!("plain:{k}"),
+            _ => plain_key(k),
         }
     }
 
@@ -842,7 +958,7 @@ impl Sys {
         let mut raw: Vec<(u64, String)> = vec![];
         let mut raw_strict: Vec<(u64, String)> = vec![];
         for key in st.scan("") {
-            let (code, name) = if let Some(k) = key.strip_prefix("plain:").and_then(|s| s.parse::<u64>().ok()) {
+            let (code, name) = if let Some(k) = plain_code(&key) {
                 (k, format!("m{k}"))
             } else if let Some(k) = key.strip_prefix("_cache:c").and_then(|s| s.parse::<u64>().ok()) {
                 (1_000_000 + k, format!("c{k}"))
@@ -976,10 +1092,11 @@ fn diff_images(then: &Image, now: &Image) -> Vec<(String, String)> {
         let nowm: BTreeMap<u64, &(u64, String, String, String)> = now.tables.iter().map(|t| (t.0, t)).collect();
         let mut lost = false;
         let mut idx_only = true;
+        let mut unlisted: Vec<u64> = vec![];
         for t in &then.tables {
             match nowm.get(&t.0) {
                 None => {
-                    lost = true;
+                    unlisted.push(t.0);
                     idx_only = false;
                 }
                 Some(n) => {
@@ -995,10 +1112,16 @@ fn diff_images(then: &Image, now: &Image) -> Vec<(String, String)> {
         if now.tables.len() != then.tables.len() {
             idx_only = false;
         }
+        if !unlisted.is_empty() {
+            out.push((
+                TABLE_UNLISTED_CLASS.to_string(),
+                format!("tables {unlisted:?} were listed when the checkpoint was taken and list_tables does not show them after the rollback (the table's `_meta:table:` key did not come back; the known finding relational_tables_lost is about tables that ARE listed again and whose rows are gone)"),
+            ));
+        }
         if lost {
             out.push((
                 "tensor_store.restore_from_bytes/relational_tables_lost".to_string(),
-                "a table that could be scanned when the checkpoint was taken is missing or unreadable after the rollback (the relational slab is cleared and not restored)".to_string(),
+                "a table that could be scanned when the checkpoint was taken is listed but unreadable after the rollback (the relational slab is cleared and not restored)".to_string(),
             ));
         } else if idx_only {
             out.push((
@@ -1248,6 +1371,13 @@ fn run_case(ctx: &mut Ctx, m: &mut Model, stream: &str, mode: Mode, max: usize, 
     let mut agreed = true;
     let mut violated = false;
     let mut oracle: BTreeMap<u64, Image> = BTreeMap::new();
+    // per checkpoint number: EVERY storage key (with a digest of its fields) when it was taken, and
+    // the checkpoints that were listed then (their blobs are part of its snapshot)
+    let mut full_at: BTreeMap<u64, BTreeMap<String, u64>> = BTreeMap::new();
+    let mut listed_at: BTreeMap<u64, Vec<u64>> = BTreeMap::new();
+    // after the first model / implementation disagreement the case goes on REAL-ONLY: the model is
+    // no longer consulted, the real system is still driven and every oracle still evaluated
+    let mut model_on = true;
     let mut trace: Vec<String> = vec![];
     let mut ck_i = 0usize;
     let mut state_changes = 0;
@@ -1264,6 +1394,7 @@ fn run_case(ctx: &mut Ctx, m: &mut Model, stream: &str, mode: Mode, max: usize, 
                 let real = matches!(op, Op::CkptReal(_)) || mode == Mode::Router || mode == Mode::Auto;
                 // the harness-side snapshot oracle: the real image at checkpoint time
                 let before = sys.image();
+                let before_full = full_keys(sys.store());
                 let td = sys.text_api_diffs(&before);
                 ctx.rep.hit("text_api:checked_at_checkpoint");
                 if !td.is_empty() {
@@ -1283,6 +1414,8 @@ fn run_case(ctx: &mut Ctx, m: &mut Model, stream: &str, mode: Mode, max: usize, 
                     ctx.rep.hit("create:at_retention_limit");
                 }
                 oracle.insert(n, before);
+                full_at.insert(n, before_full);
+                listed_at.insert(n, live_before.clone());
                 let live_after = sys.live_ids();
                 // the by_tag order is a hash-set order: reconstruct one consistent with what was kept
                 let kept: Vec<u64> = live_after.clone();
@@ -1419,6 +1552,7 @@ fn run_case(ctx: &mut Ctx, m: &mut Model, stream: &str, mode: Mode, max: usize, 
             Op::TDel(..) | Op::TNodeDel(_) | Op::TEmbDel(_) => {
                 // the image BEFORE the destructive statement is what its auto-checkpoint must hold
                 let before = sys.image();
+                let before_full = full_keys(sys.store());
                 let live_before = sys.live_ids();
                 let listed_before = sys.listing();
                 let known: BTreeSet<String> = sys.ck_real.values().cloned().collect();
@@ -1488,6 +1622,8 @@ fn run_case(ctx: &mut Ctx, m: &mut Model, stream: &str, mode: Mode, max: usize, 
                     }
                     sys.ck_meta.insert(n, (name, ts_new));
                     oracle.insert(n, before);
+                    full_at.insert(n, before_full);
+                    listed_at.insert(n, live_before.clone());
                     ck_i += 1;
                     let live_after = sys.live_ids();
                     // retention as create_auto applies it, on the real listing: exactly
@@ -1507,10 +1643,13 @@ fn run_case(ctx: &mut Ctx, m: &mut Model, stream: &str, mode: Mode, max: usize, 
                     }
                     let ck_line = format!("ackpt {ts_new} {} {name}", nats(&ord));
                     trace.push(ck_line.clone());
-                    let mo = m.ask(&ck_line);
-                    let tr = trace.clone();
-                    if !ctx.rep.compare(stream, || json!({"ops": tr, "max": max, "what": "auto-checkpoint"}), &format!("id {n}"), &mo) {
-                        agreed = false;
+                    if model_on {
+                        let mo = m.ask(&ck_line);
+                        let tr = trace.clone();
+                        if !ctx.rep.compare(stream, || json!({"ops": tr, "max": max, "what": "auto-checkpoint"}), &format!("id {n}"), &mo) {
+                            agreed = false;
+                            model_on = false;
+                        }
                     }
                     ctx.rep.hit("auto_checkpoint:created");
                 }
@@ -1583,6 +1722,7 @@ fn run_case(ctx: &mut Ctx, m: &mut Model, stream: &str, mode: Mode, max: usize, 
                     }
                     after_rollback = true;
                     let now = sys.image();
+                    let now_full = full_keys(sys.store());
                     let td = sys.text_api_diffs(&now);
                     ctx.rep.hit("text_api:checked_after_rollback");
                     if !td.is_empty() {
@@ -1645,8 +1785,54 @@ fn run_case(ctx: &mut Ctx, m: &mut Model, stream: &str, mode: Mode, max: usize, 
                             );
                         }
                     }
+                    // the FULL key set: every storage key that existed when the checkpoint was taken —
+                    // internal `_` keys (schemas, indexes, the blob records and chunks of the checkpoints
+                    // retained then), `node:` / `edge:` / `emb:`, every raw family — is there again with
+                    // the same fields, and no other key is
+                    if let Some(then_full) = full_at.get(n) {
+                        ctx.rep.hit("rollback:full_key_set_compared");
+                        if then_full.keys().any(|k| k.starts_with("_blob:")) {
+                            ctx.rep.hit("rollback:full_key_set_with_older_checkpoint_blobs");
+                        }
+                        for (class, what) in diff_full_keys(then_full, &now_full) {
+                            violated = true;
+                            ctx.violation(
+                                &class,
+                                &what,
+                                json!({"stream": stream, "max": max, "ts": tss, "ops": trace.clone(), "op": op.line(), "rollback_to": n,
+                                       "keys_at_checkpoint": then_full.keys().collect::<Vec<_>>(), "keys_after_rollback": now_full.keys().collect::<Vec<_>>()}),
+                            );
+                        }
+                    }
                     let live_after = sys.live_ids();
-                    let lost: Vec<u64> = live_before.iter().copied().filter(|i| !live_after.contains(i)).collect();
+                    // a checkpoint that was listed when the target was taken is IN the target's snapshot:
+                    // if it was still listed before the rollback it must be listed after it (what the
+                    // rollback cannot keep — the known finding — is the target itself and everything
+                    // made after it), and every checkpoint listed afterwards must load
+                    let in_snapshot: Vec<u64> = listed_at.get(n).cloned().unwrap_or_default();
+                    let older_lost: Vec<u64> = live_before.iter().copied().filter(|i| in_snapshot.contains(i) && !live_after.contains(i)).collect();
+                    if live_before.iter().any(|i| in_snapshot.contains(i)) {
+                        ctx.rep.hit("rollback:older_checkpoint_in_snapshot");
+                    }
+                    if !older_lost.is_empty() {
+                        violated = true;
+                        ctx.violation(
+                            OLDER_LOST_CLASS,
+                            &format!("checkpoints {older_lost:?} were listed when checkpoint number {n} was taken (their blobs are part of its snapshot) and still listed before ROLLBACK TO it; after the rollback they are gone: a retained checkpoint can no longer be rolled back to"),
+                            json!({"stream": stream, "max": max, "ts": tss, "ops": trace.clone(), "op": op.line(), "rollback_to": n, "listed_when_taken": in_snapshot, "listed_before": live_before, "listed_after": live_after}),
+                        );
+                    }
+                    for k in &live_after {
+                        if !sys.loadable(*k) {
+                            violated = true;
+                            ctx.violation(
+                                NOT_LOADABLE_AFTER_ROLLBACK_CLASS,
+                                &format!("checkpoint number {k} is listed after ROLLBACK TO checkpoint number {n} but cannot be loaded"),
+                                json!({"stream": stream, "max": max, "ts": tss, "ops": trace.clone(), "op": op.line(), "rollback_to": n, "listed_after": live_after}),
+                            );
+                        }
+                    }
+                    let lost: Vec<u64> = live_before.iter().copied().filter(|i| !live_after.contains(i) && !older_lost.contains(i)).collect();
                     if !lost.is_empty() {
                         violated = true;
                         ctx.violation(
@@ -1729,6 +1915,9 @@ fn run_case(ctx: &mut Ctx, m: &mut Model, stream: &str, mode: Mode, max: usize, 
                 ctx.violation("tensor_checkpoint.manager_list/failed", &format!("CheckpointManager::list(None) failed: {e}"), json!({"stream": stream, "ops": trace.clone()}));
             }
         }
+        if !model_on {
+            continue;
+        }
         let mo = m.ask(&model_line);
         // a refused text DELETE / NODE DELETE / EMBED DELETE is compared as ONE token (see `text_destructive`)
         let mo = if matches!(op, Op::TDel(..) | Op::TNodeDel(_) | Op::TEmbDel(_)) && (mo == "err notfound" || mo == "err storage") { TEXT_REFUSED.to_string() } else { mo };
@@ -1750,7 +1939,12 @@ fn run_case(ctx: &mut Ctx, m: &mut Model, stream: &str, mode: Mode, max: usize, 
             agreed = false;
         }
         if !agreed {
-            break;
+            // real-only from here on (BUILDING.md: the continuation is what turns a broken
+            // correspondence into a concrete failing input)
+            model_on = false;
+            if record {
+                ctx.rep.hit("case:continued_real_only_after_disagreement");
+            }
         }
     }
     if record {
@@ -2615,7 +2809,7 @@ fn stream_slab(ctx: &mut Ctx, m: &mut Model, rng: &Rng, cases: usize) {
 fn raw_image_of(st: &TensorStore, strict: bool) -> String {
     let mut raw: Vec<(u64, String)> = vec![];
     for key in st.scan("") {
-        let (code, name) = if let Some(k) = key.strip_prefix("plain:").and_then(|s| s.parse::<u64>().ok()) {
+        let (code, name) = if let Some(k) = plain_code(&key) {
             (k, format!("m{k}"))
         } else if let Some(k) = key.strip_prefix("_cache:c").and_then(|s| s.parse::<u64>().ok()) {
             (1_000_000 + k, format!("c{k}"))
